@@ -291,6 +291,63 @@ def session_case(rng, k, flavour=None):
     return L
 
 
+def copy_case(rng, k):
+    """rfbDoCopyRect with clients that take CopyRect, a server-painted cursor and pointer moves: after every update
+    that answers a full-screen request the client's picture (CopyRect rectangles applied) must be the framebuffer with
+    the cursor at the CURRENT pointer position - in particular when the pointer moved into the destination of a copy
+    that is still pending.  The session model has no copyRegion: these cases are checked by the picture oracle only."""
+    fmt = rng.choice(SESSION_FORMATS)
+    bpp = fmt[0]
+    W, H = rng.choice([5, 8, 10, 13]), rng.choice([4, 7, 9])
+    pm = (1 << (8 * bpp)) - 1
+    fb = [[rng.randint(0, pm) for _ in range(W)] for _ in range(H)]
+    L = ["case %d session copy" % k, "screen %d %d %d %d %d %d %d %d %d" % ((W, H) + fmt)] + \
+        stride_line(rng, fmt[0]) + ["fb " + " ".join("%x" % p for r in fb for p in r)]
+    cur = rand_cursor(rng, fmt, rng.choice(["rich", "rich", "x"]))
+    L += cur.lines() + ["setcur"]
+    ncl = rng.choice([1, 1, 2])
+    for i in range(ncl):
+        encs = rng.choice([["copyrect"], ["copyrect"], ["copyrect"], [], ["rich", "copyrect"], ["x", "pos", "copyrect"]])
+        L.append(("client %d %s" % (i, " ".join(encs))).rstrip())
+    for i in range(ncl):
+        L.append("fur %d 0 0 0 %d %d" % (i, W, H))
+    dest = None
+    for _ in range(rng.choice([3, 6, 10])):
+        r = rng.random()
+        if r < 0.35:
+            x1, y1, x2, y2 = rand_rect_in(rng, W, H)
+            dx, dy = rng.randint(x2 - W, x1), rng.randint(y2 - H, y1)
+            if (dx, dy) == (0, 0):
+                dx = 1 if x2 < W and x1 >= 1 else 0
+                dy = 0 if dx else (1 if y1 >= 1 else -1 if y2 < H else 0)
+            if (dx, dy) != (0, 0) and 0 <= x1 - dx and x2 - dx <= W and 0 <= y1 - dy and y2 - dy <= H:
+                L.append("copy %d %d %d %d %d %d" % (x1, y1, x2, y2, dx, dy))
+                dest = (x1, y1, x2, y2)
+                if rng.random() < 0.7:          # the pointer moves into the destination before the next request
+                    L.append("ptr %d %d %d" % (rng.randrange(ncl), rng.randint(x1, x2 - 1), rng.randint(y1, y2 - 1)))
+        elif r < 0.6:
+            if dest and rng.random() < 0.5:
+                x1, y1, x2, y2 = dest
+                L.append("ptr %d %d %d" % (rng.randrange(ncl), rng.randint(x1, x2 - 1), rng.randint(y1, y2 - 1)))
+            else:
+                L.append("ptr %d %d %d" % (rng.randrange(ncl), rng.randint(0, W - 1), rng.randint(0, H - 1)))
+        elif r < 0.7:
+            x1, y1, x2, y2 = rand_rect_in(rng, W, H)
+            L.append("fill %d %d %d %d %x" % (x1, y1, x2, y2, rng.randint(0, pm)))
+        else:
+            L.append("fur %d 1 0 0 %d %d" % (rng.randrange(ncl), W, H))
+            dest = None
+    for i in range(ncl):
+        L.append("fur %d 1 0 0 %d %d" % (i, W, H))
+    return L
+
+
+def oracle_only(c):
+    """cases the mirror model does not cover (no copyRegion in the session model): picture oracle only"""
+    t = c[0].split()
+    return len(t) > 3 and t[2] == "session" and t[3] == "copy"
+
+
 def mask_case(rng, k):
     L = ["case %d mask" % k]
     for _ in range(6):
@@ -407,6 +464,9 @@ def gen_cases(ctx):
         k += 1
         cases.append(makex_case(rng, k))
         k += 1
+    for _ in range(250 if ctx.quick() else 5000):
+        cases.append(copy_case(rng, k))
+        k += 1
     return cases
 
 
@@ -517,6 +577,12 @@ def _oracle_case(script, impl, crash=None):
                 st.sx, st.sy = x, y
                 for j, c in st.cl.items():
                     c["must_pos"] = c["pos"] and j != k
+        elif p[0] == "copy":
+            x1, y1, x2, y2, dx, dy = (int(t) for t in p[1:7])
+            old = [r[:] for r in st.fb]
+            for y in range(y1, y2):
+                for x in range(x1, x2):
+                    st.fb[y][x] = old[y - dy][x - dx]
         elif p[0] == "fill":
             x1, y1, x2, y2 = (int(t) for t in p[1:5])
             v = int(p[5], 16)
@@ -687,6 +753,10 @@ def session_obs(st, op, line):
         if o["dead"]:
             c["dead"] = True
             continue
+        if any(t in o["raw"] for t in ("BADRECT", "BADCOPY", "TRUNCATED", "UNEXPECTED")):
+            errs.append(("malformed update stream for client %d after '%s': %s" % (k, op.split()[0], o["raw"][:80]),
+                         {"kind": "stream", "what": o["raw"].split()[0]}))
+            continue
         if c["dead"] or o.get("sent") != "1":
             continue
         kindc = "alpha" if st.cur and st.cur.alpha is not None else "mask"
@@ -830,10 +900,12 @@ def check(ctx):
     by_head = {h: ls for (h, ls) in vlib.split_cases(cout)}
 
     def mism(variant):
-        _, mo, _ = run_model(mexe, cases, variant)
+        _, mo, _ = run_model(mexe, [c for c in cases if not oracle_only(c)], variant)
         mby = {h: ls for (h, ls) in vlib.split_cases(mo)}
         out = []
         for idx, c in enumerate(cases):
+            if oracle_only(c):
+                continue
             il, ml = by_head.get(c[0], []), mby.get(c[0], [])
             if c[0] in crashes and len(il) < len(ml) and il == ml[:len(il)] and ml[len(il)].endswith(" ERR"):
                 continue        # the library died (sanitizer) exactly where the model has its explicit error value
